@@ -107,3 +107,28 @@ package module
 //@   trusted
 //@   pure
 //@   ensures seq(id) == blk_id(b)
+
+//@ property C05 C07
+// ghost record of the last commit-certificate verification: which block and which validator list
+// the vote set was checked against, and whether it (and the BTP proofs) were accepted
+//@ smt all (declare-ghost vb_ok Bool)
+//@ smt all (declare-ghost vb_block Iface)
+//@ smt all (declare-ghost vb_vals Iface)
+//@ smt all (declare-ghost pcm_ok Bool)
+//@ smt all (declare-fun blk_voters (Iface) Iface)
+//@ func (vs CommitVoteSet) VerifyBlock(block, validators) (voted, err)
+//@   iface
+//@   trusted
+//@   pure
+//@   opt ghost:vb_ok err == nil
+//@   opt ghost:vb_block block
+//@   opt ghost:vb_vals validators
+//@ func (vs CommitVoteSet) VoteRound() (r)
+//@   iface
+//@   trusted
+//@   pure
+//@ func (m BTPProofContextMap) Verify(srcUID, height, round, bd, ntsdProves) (err)
+//@   iface
+//@   trusted
+//@   pure
+//@   opt ghost:pcm_ok err == nil
